@@ -261,6 +261,19 @@ def stats_rules(run, db):
             return dom2.func_atom('util_' + fi_.name, [a0])
         return op2(fi_, args, kws, node) if op2 else None
     dom2.call_prysm = call_prysm2
+    om2, oe2 = dom2.method, dom2.call_ext
+
+    def method2(v, name, args, kws, node):
+        if dom2.rat(v) is not None and name in ('mean', 'sum', 'std', 'max', 'min'):
+            return dom2.func_atom('ndarray_' + name, [v])          # a reduction over ALL samples (NaN propagates): not the util statistic
+        return om2(v, name, args, kws, node)
+
+    def call_ext2(dotted, args, kws, node):
+        last = dotted.rsplit('.', 1)[-1]
+        if dotted.startswith('numpy.') and last in ('mean', 'nanmean', 'sum', 'std', 'median') and args and dom2.rat(args[0]) is not None:
+            return dom2.func_atom('numpy_' + last, [args[0]])
+        return oe2(dotted, args, kws, node)
+    dom2.method, dom2.call_ext = method2, call_ext2
     holder2 = {}
 
     def mkself2():
